@@ -39,6 +39,11 @@ Theorem C34_inside_root :
 Proof. exact inside_root. Qed.
 Print Assumptions C34_inside_root.
 
+(* SLASH is the separator literal read from the source of canonicalize on every run *)
+Theorem C34_separator : SLASH = 47 /\ DOT = 46.
+Proof. split; reflexivity. Qed.
+Print Assumptions C34_separator.
+
 (* exactly two leading slashes are kept by normpath, three or more collapse to one *)
 Theorem C34_double_slash_kept :
   canonicalize [SLASH; SLASH; 120] = [SLASH; SLASH; 120] /\
